@@ -604,17 +604,18 @@ impl Shadow {
                 // whole target (in either alignment) or just not the whole: the internal
                 // RangedAnnotationSelector (with and without text) triggers and just misses
                 let start = *rng.pick(&la);
-                let style = rng.below(4);
+                let style = rng.below(5);
                 let mut h = start;
                 for _ in 0..n + 1 {
                     if !la.contains(&h) {
                         break;
                     }
-                    let st = if rng.chance(1, 5) { rng.below(4) } else { style };
+                    let st = if rng.chance(1, 5) { rng.below(5) } else { style };
                     v.push(match st {
                         0 => l(vec![a(1), hnd(h)]),
                         1 => l(vec![a(2), hnd(h), l(vec![a(0), a(0)]), l(vec![a(1), a(0)])]),
                         2 => l(vec![a(2), hnd(h), l(vec![a(0), a(0)]), l(vec![a(0), a(1 + rng.below(3) as i64)])]),
+                        4 => l(vec![a(2), hnd(h), l(vec![a(0), a(0)]), l(vec![a(1), a(-(1 + rng.below(2) as i64))])]),
                         _ => l(vec![a(2), hnd(h), l(vec![a(1), a(-(1 + rng.below(2) as i64))]), l(vec![a(1), a(0)])]),
                     });
                     h += if rng.chance(1, 6) { 2 } else { 1 };
